@@ -188,7 +188,17 @@ func (p Prog) String() string {
 }
 
 // ---------- assembler ----------
-type asm struct{ b []byte }
+type asm struct {
+	b     []byte
+	memHi int // bytes of memory the code emitted so far has touched (multiple of 32)
+}
+
+func (a *asm) touch(end int) {
+	end = (end + 31) / 32 * 32
+	if end > a.memHi {
+		a.memHi = end
+	}
+}
 
 func (a *asm) op(o ...byte) *asm { a.b = append(a.b, o...); return a }
 func (a *asm) push(v uint64) *asm {
@@ -223,6 +233,7 @@ func (a *asm) mem(off int, data []byte) *asm {
 		a.b = append(a.b, 0x7f)
 		a.b = append(a.b, chunk...)
 		a.push(uint64(off + i)).op(0x52)
+		a.touch(off + i + 32)
 	}
 	return a
 }
@@ -311,7 +322,25 @@ func authSig(invoker common.Address) []byte {
 	return out
 }
 
-func (t *table) compile(id int, asInit bool) []byte {
+// fragment of the byte code of one action: [start,opAt) before the effecting opcode, the opcode at opAt (opAt == end:
+// the whole fragment is static, effect included), (opAt,end) after it
+type fragPos struct {
+	start, opAt, end int
+	memStart, memOp  int // memory touched before the fragment / before the part after the opcode
+	extra            uint64 // statically known dynamic gas of the opcode that cannot be measured in isolation
+	req              uint64
+}
+type codeRec struct {
+	acts          []fragPos
+	finStart      int
+	finMem        int
+	finOp         byte
+	finPost       uint64
+}
+
+func (t *table) compile(id int, asInit bool) []byte { return t.compileRec(id, asInit, nil) }
+
+func (t *table) compileRec(id int, asInit bool, rec *codeRec) []byte {
 	p := t.progs[id-1]
 	if len(p.Acts) >= maxSteps {
 		panic("program too long for the step probes")
@@ -319,6 +348,10 @@ func (t *table) compile(id int, asInit bool) []byte {
 	a := &asm{}
 	a.push(uint64(0x7000 + id)).op(opPOP) // unique marker: distinct programs have distinct code
 	for ai, x := range p.Acts {
+		fp := fragPos{start: len(a.b), memStart: a.memHi, opAt: -1}
+		if ai == 0 {
+			fp.start = 0
+		}
 		a.push(uint64(probeStep + ai)).op(opBLOCKHASH, opPOP)
 		site := -1
 		switch x.Op {
@@ -356,7 +389,12 @@ func (t *table) compile(id int, asInit bool) []byte {
 			} else {
 				a.pushAddr(addrOf(x.Target))
 			}
-			a.push(g).op(map[string]byte{"call": opCALL, "callcode": opCALLCODE, "delegate": opDELEGATECALL, "static": opSTATICCALL}[x.Kind])
+			if x.Op == "callcreated" {
+				a.touch(memCreated + 32)
+			}
+			a.push(g)
+			fp.opAt, fp.memOp, fp.req = len(a.b), a.memHi, g
+			a.op(map[string]byte{"call": opCALL, "callcode": opCALLCODE, "delegate": opDELEGATECALL, "static": opSTATICCALL}[x.Kind])
 			endProbe()
 		case "create":
 			init := t.compile(x.Init, true)
@@ -365,28 +403,52 @@ func (t *table) compile(id int, asInit bool) []byte {
 			}
 			a.mem(0, init)
 			if x.Create2 {
-				a.push(x.Salt).push(uint64(len(init))).push(0).push(x.Value).op(opCREATE2)
+				a.push(x.Salt).push(uint64(len(init))).push(0).push(x.Value)
+				fp.opAt, fp.memOp = len(a.b), a.memHi
+				fp.extra = uint64((len(init)+31)/32) * vm.Sha3WordGas * gasFactor()
+				a.op(opCREATE2)
 			} else {
-				a.push(uint64(len(init))).push(0).push(x.Value).op(opCREATE)
+				a.push(uint64(len(init))).push(0).push(x.Value)
+				fp.opAt, fp.memOp = len(a.b), a.memHi
+				a.op(opCREATE)
 			}
 			a.op(opDUP1).push(memCreated).op(opMSTORE) // remember the new address (0 when the creation failed)
+			a.touch(memCreated + 32)
 			a.op(opISZERO, opISZERO)
 			endProbe()
 		case "stake", "unstake":
 			a.op(opADDRESS).pushBig(new(big.Int).Mul(bigU(x.V), unit18))
+			fp.opAt, fp.memOp = len(a.b), a.memHi
 			if x.Op == "stake" {
 				a.op(opSTAKE, opPOP)
 			} else {
 				a.op(opUNSTAKE, opPOP)
 			}
 		case "unstakeall":
-			a.op(opADDRESS, opUNSTAKEALL, opPOP)
+			a.op(opADDRESS)
+			fp.opAt, fp.memOp = len(a.b), a.memHi
+			a.op(opUNSTAKEALL, opPOP)
 		case "auth":
 			a.mem(memSig, authSig(addrOf(x.Inv)))
 			a.push(128).push(memSig).pushAddr(addrOf(idAuth)).op(opAUTH, opPOP)
 		case "authcall":
-			a.push(0).push(0).push(0).push(0).push(0).push(x.Value).pushAddr(addrOf(x.Target)).push(gasFor(x.Target)).push(x.Nonce).op(opAUTHCALL)
+			a.push(0).push(0).push(0).push(0).push(0).push(x.Value).pushAddr(addrOf(x.Target)).push(gasFor(x.Target)).push(x.Nonce)
+			fp.opAt, fp.memOp, fp.req = len(a.b), a.memHi, gasFor(x.Target)
+			a.op(opAUTHCALL)
 			endProbe()
+		}
+		fp.end = len(a.b)
+		if fp.opAt < 0 {
+			fp.opAt, fp.memOp = fp.end, a.memHi
+		}
+		if rec != nil {
+			rec.acts = append(rec.acts, fp)
+		}
+	}
+	if rec != nil {
+		rec.finStart, rec.finMem = len(a.b), a.memHi
+		if len(p.Acts) == 0 {
+			rec.finStart = 0
 		}
 	}
 	// memory for the terminator is written / expanded before the last step probe, so that running out of gas
@@ -398,6 +460,7 @@ func (t *table) compile(id int, asInit bool) []byte {
 		a.mem(0, rt)
 	case p.Fin == "returnbig":
 		a.push(maxCode - 31).op(opMLOAD, opPOP)
+		a.touch(maxCode + 1)
 	}
 	a.push(uint64(probeStep + len(p.Acts))).op(opBLOCKHASH, opPOP)
 	switch p.Fin {
@@ -412,12 +475,23 @@ func (t *table) compile(id int, asInit bool) []byte {
 	case "invalid":
 		a.op(opINVALID)
 	case "selfdestruct":
-		a.pushAddr(addrOf(p.FinArg)).op(opSELFDESTR)
+		a.pushAddr(addrOf(p.FinArg))
+		if rec != nil {
+			rec.finOp, rec.finPost = opSELFDESTR, vm.SelfdestructGasEIP150
+		}
+		a.op(opSELFDESTR)
 	}
 	for i := 0; i < p.Pad; i++ {
 		a.op(0x5b)
 	}
 	return a.b
+}
+
+func gasFactor() uint64 {
+	if common.IsProposal026() {
+		return common.GasMagnification
+	}
+	return 1
 }
 
 func coqProg(p Prog) string {
